@@ -255,3 +255,39 @@ class Check:
         path = os.path.join(EVIDENCE_DIR, '%s.json' % self.prop_id)
         with open(path, 'w') as stream:
             json.dump(evidence, stream, indent=1, default=str)
+
+
+
+class SubCheck:
+    """
+    Runs the rules of another property as *one* rule of this one: a property that relies
+    on a primitive (a queue on its mutex) decides the discipline of that primitive too.
+    Every instance is recorded under ``rule`` with the construct prefixed.
+    """
+
+    def __init__(self, check: Check, rule: str, prefix: str):
+        self._check, self._rule, self._prefix = check, rule, prefix
+        self.stats = {}
+        self.prop_id, self.tier, self.seed = check.prop_id, check.tier, check.seed
+        self.selftest = None
+
+    def rule(self, rule_id: str, text: str):
+        pass
+
+    def instance(self, rule, construct, ok, where='', detail='', path=None,
+                 nontrivial=True, assert_only=False, analysed=1):
+        return self._check.instance(self._rule, '%s:%s %s' % (self._prefix, rule, construct),
+                                    ok, where, detail, path, nontrivial, assert_only,
+                                    analysed)
+
+    def note(self, text: str):
+        self._check.note('%s: %s' % (self._prefix, text))
+
+    def floor(self, rule: str, minimum: int, what: str = None):
+        pass   # floors are the business of the property that owns the rules
+
+    def assume(self, text: str):
+        self._check.assume(text)
+
+    def error(self, text: str):
+        self._check.error('%s: %s' % (self._prefix, text))
